@@ -9,6 +9,10 @@
         truth of <pred> on each row; <bits> is a string over T/F/N giving the
         truth of label atom k (k = position) on that row ('-' = no atoms)
         -> one of T/F/N per row
+     K <bound> <data> <nsel>          known-finding classifier: <bound>/<data> = i | n (timestamp
+        column of the table bound before the query / of the ingested data: Int64 or
+        Timestamp(ns)), <nsel> = number of selected chunks
+        -> empty-selection-schema-of-earlier-registration | none
    pred ::= C <op> <lit> | R <op> <lit> | B <0|1> <lit> <lit> | L <k> <0|1>
           | A <pred> <pred> | O <pred> <pred> | N <pred>
    op   ::= eq | ne | lt | le | gt | ge
@@ -66,7 +70,7 @@ let show_tv (t : tv) : string =
 
 let run_line (line : string) : string =
   let line = String.trim line in
-  if String.length line < 2 then failwith "empty line" else
+  if String.length line < 1 then failwith "empty line" else
   let kind = line.[0] and rest = String.sub line 1 (String.length line - 1) in
   let parts = List.filter (fun s -> String.trim s <> "") (String.split_on_char ';' rest) in
   match kind with
@@ -96,6 +100,14 @@ let run_line (line : string) : string =
            String.concat "" (List.mapi (fun idx (ts, _) ->
              show_tv (sem i p { r_id = n_of_int idx; r_ts = ts })) rows)
        | _ -> failwith "bad S line")
+  | 'K' ->
+      (match toks_of rest with
+       | [b; d; nsel] ->
+           let kind = function "i" -> KInt64 | "n" -> KNanos | s -> failwith ("bad kind " ^ s) in
+           let sel = List.init (int_of_string nsel) (fun i -> n_of_int (i + 1)) in
+           if known_empty_selection_schema (kind b) (kind d) sel
+           then "empty-selection-schema-of-earlier-registration" else "none"
+       | _ -> failwith "bad K line")
   | _ -> failwith "bad line kind"
 
 let () = serve run_line
